@@ -49,6 +49,16 @@ def naive(full, pats, W):
     return (best[0], base + best[1], base + best[1] + best[2])
 
 
+def _windowed(P, cut, W, Wi, via, searcher):
+    """spawn + Expecter whose effective window is W: taken from the instance default (per-call -1) when `via`,
+    else given per call while the instance default is some other value Wi, which must then play no role"""
+    if via:
+        sp = state_spawn(P, cut, W)
+        return sp, Expecter(sp, searcher, -1)
+    sp = state_spawn(P, cut, Wi)
+    return sp, Expecter(sp, searcher, W)
+
+
 def _min(a, b):
     return a if a < b else b
 
@@ -56,13 +66,12 @@ def _min(a, b):
 @obligation(params=dict(P=Text(5), blen=Int(0, 5), W=OptInt(1, 6), lb=Int(0, 3)),
             tags={2: 'window rebuilt from pending', 3: 'window from the search buffer', 4: 'no window, whole pending'},
             timeout=120, note='E1: existing_data searches exactly the naive region and re-establishes the call invariant')
-def E1_existing_region(P, blen, W, lb):
+def E1_existing_region(P, blen, W, lb, Wi=None, via=True):
     n = len(P)
     if blen > n:
         return SKIP
-    sp = state_spawn(P, n - blen, W)
     r = AbsSearcher(False, 0, 0, lb)
-    ex = Expecter(sp, r, -1)
+    sp, ex = _windowed(P, n - blen, W, Wi, via, r)
     if ex.existing_data() is not None:
         return 0
     window, freshlen, sws = r.calls[0]
@@ -84,7 +93,7 @@ def E1_existing_region(P, blen, W, lb):
     return 2 if blen < _min(n, W) else 3
 
 
-def _e2(P, blen, D, pats, W, regex):
+def _e2(P, blen, D, pats, W, regex, Wi=None, via=True):
     n = len(P)
     if blen > n:
         return SKIP
@@ -115,12 +124,11 @@ def _e2(P, blen, D, pats, W, regex):
                 return SKIP
             if naive(P, pats, W) is not None:
                 return SKIP
-    sp = state_spawn(P, n - blen, W)
     if regex:
         sr = searcher_re([LitPat(s) for s in pats])
     else:
         sr = searcher_string(pats)
-    ex = Expecter(sp, sr, -1)
+    sp, ex = _windowed(P, n - blen, W, Wi, via, sr)
     idx = ex.new_data(D)
     full = P + D
     ref = naive(full, pats, W)
@@ -152,16 +160,16 @@ def _e2(P, blen, D, pats, W, regex):
             tags={2: 'match inside new data', 3: 'miss, invariant kept', 4: 'match straddling the read boundary'},
             timeout=600, split=('W',),
             note='E2: exact searcher, two symbolic patterns, from any call-invariant state')
-def E2_new_exact(P, blen, D, s1, s2, W):
-    return _e2(P, blen, D, [s1, s2], W, False)
+def E2_new_exact(P, blen, D, s1, s2, W, Wi=None, via=True):
+    return _e2(P, blen, D, [s1, s2], W, False, Wi, via)
 
 
 @obligation(params=dict(P=Text(4), blen=Int(0, 4), D=Text(3), s1=Text(2, min=1), s2=Text(2, min=1), W=OptInt(1, 5)),
             tags={2: 'match inside new data', 3: 'miss, invariant kept', 4: 'match straddling the read boundary'},
             timeout=600, split=('W',),
             note='E2: regex searcher over two literal patterns, from any call-invariant state')
-def E2_new_regex(P, blen, D, s1, s2, W):
-    return _e2(P, blen, D, [s1, s2], W, True)
+def E2_new_regex(P, blen, D, s1, s2, W, Wi=None, via=True):
+    return _e2(P, blen, D, [s1, s2], W, True, Wi, via)
 
 
 def _lit_pat(s):
@@ -180,7 +188,7 @@ def _lit_pat(s):
                                       W=OptInt(1, 4)), timeout=3000),
             note='E5: public API end to end vs the naive model: text P0 left pending by an earlier call (search '
                  'buffer any suffix), then 2 reads at a symbolic cut, then EOF/TIMEOUT')
-def E5_end_to_end(S, c1, P0, blen0, s1, s2, W, regex, end):
+def E5_end_to_end(S, c1, P0, blen0, s1, s2, W, regex, end, Wi=None, via=True):
     if c1 > len(S) or blen0 > len(P0):
         return SKIP
     chunks = [S[:c1], S[c1:]]
@@ -199,12 +207,19 @@ def E5_end_to_end(S, c1, P0, blen0, s1, s2, W, regex, end):
             ref = naive(pend, pats, W)
             if ref is not None:
                 break
+    # the effective window W comes from the instance default (per-call -1) or is given per call while the
+    # instance default is some other value Wi (which must then play no role)
+    if via:
+        sp.searchwindowsize = W
+        callW = -1
+    else:
+        sp.searchwindowsize = Wi
+        callW = W
     with frozen_time():
         if regex:
-            i = sp.expect_list([_lit_pat(s1), _lit_pat(s2), EOF, TIMEOUT], timeout=5,
-                               searchwindowsize=W if W is not None else -1)
+            i = sp.expect_list([_lit_pat(s1), _lit_pat(s2), EOF, TIMEOUT], timeout=5, searchwindowsize=callW)
         else:
-            i = sp.expect_exact([s1, s2, EOF, TIMEOUT], timeout=5, searchwindowsize=W if W is not None else -1)
+            i = sp.expect_exact([s1, s2, EOF, TIMEOUT], timeout=5, searchwindowsize=callW)
     if ref is None:
         if i != (2 if end else 3):
             return 0
@@ -220,7 +235,38 @@ def E5_end_to_end(S, c1, P0, blen0, s1, s2, W, regex, end):
     return 2 + at
 
 
+@obligation(params=dict(P=Text(4), blen=Int(0, 4), D=Text(2), s1=Text(2, min=1), s2=Text(1, min=1), W=OptInt(1, 4),
+                        Wi=OptInt(1, 4), regex=Bool()),
+            tags={2: 'match inside new data', 3: 'miss, invariant kept', 4: 'match straddling the read boundary'},
+            timeout=600, split=('W', 'regex'),
+            note='E6: the E2 step with the window given per call while the instance default is another value Wi: only '
+                 'the per-call window may matter (added after a seeded change that handed the instance default to the '
+                 'searcher was missed: the other obligations set the window through the instance default)')
+def E6_percall_window(P, blen, D, s1, s2, W, Wi, regex):
+    return _e2(P, blen, D, [s1, s2], W, regex, Wi, False)
+
+
+@obligation(params=dict(P=Text(4), blen=Int(0, 4), W=OptInt(1, 5), lb=Int(0, 3), Wi=OptInt(1, 5)),
+            tags={2: 'window rebuilt from pending', 3: 'window from the search buffer', 4: 'no window, whole pending'},
+            timeout=120, note='E1 with the window given per call and another instance default')
+def E6_existing_percall(P, blen, W, lb, Wi):
+    return E1_existing_region(P, blen, W, lb, Wi, False)
+
+
+@obligation(params=dict(S=Text(3), c1=Int(0, 3), s1=Text(2, min=1), s2=Text(1, min=1), W=OptInt(1, 3), Wi=OptInt(1, 3),
+                        regex=Bool(), end=Int(0, 1)),
+            tags={3: 'match after first read', 4: 'match after second read', 5: 'EOF', 6: 'TIMEOUT'},
+            timeout=500, split=('W', 'regex'),
+            note='E5 (public API, 2 reads) with the window given per call and another instance default')
+def E6_api_percall(S, c1, s1, s2, W, Wi, regex, end):
+    return E5_end_to_end(S, c1, lit(''), 0, s1, s2, W, regex, end, Wi, False)
+
+
 def dry_runs():
+    yield 'E6_percall_window', dict(P='xa', blen=2, D='b', s1='ab', s2='q', W=None, Wi=1, regex=False)
+    yield 'E6_percall_window', dict(P='xa', blen=2, D='b', s1='ab', s2='q', W=3, Wi=1, regex=True)
+    yield 'E6_api_percall', dict(S='abc', c1=1, s1='bc', s2='z', W=None, Wi=1, regex=False, end=0)
+    yield 'E6_existing_percall', dict(P='abcd', blen=1, W=3, lb=2, Wi=None)
     for regex in (False, True):
         for end in (0, 1):
             yield 'E5_end_to_end', dict(S='abc', c1=1, P0='', blen0=0, s1='bc', s2='z', W=None, regex=regex, end=end)
